@@ -1590,8 +1590,12 @@ pub fn after_collect_quiet(wd: &World) {
         return;
     }
     bump(&wd.stats.c02_checks);
+    if wd.in_callback() {
+        bump(&wd.stats.c02_nested_checks);
+    }
     let m = wd.m.borrow();
-    let remain = m.remain();
+    let releasing: Vec<u32> = wd.releasing.borrow().clone();
+    let remain = m.remain_with(&releasing);
     let reach = m.reach();
     let live: HashSet<u32> = m.objs.iter().filter(|o| o.val == Val::Alive && o.box_live).map(|o| o.id).collect();
     let prop = if wd.had_resurrection.get() { "C06" } else { "C02" };
@@ -1602,7 +1606,7 @@ pub fn after_collect_quiet(wd: &World) {
             let o = m.obj(*id).unwrap();
             format!("#{}(t={:?},h={:?},holders={:?},fin={},armed={})", id, o.t, o.h, m.holders(*id), o.fin_count, o.armed)
         }).collect();
-        wd.err(prop, "garbage_not_reclaimed", format!("garbage_left:{}", if wd.had_resurrection.get() { "after_resurrection" } else { "plain" }), format!("after collect_cycles() was repeated until quiet, unreachable objects {:?} (not pinned through any untraced field of a remaining object) are still allocated: {}", not_reclaimed, shape.join(" ")));
+        wd.err(prop, "garbage_not_reclaimed", format!("garbage_left:{}{}", if wd.had_resurrection.get() { "after_resurrection" } else { "plain" }, if wd.in_callback() { ":requested_from_callback" } else { "" }), format!("after collect_cycles() was repeated until quiet, unreachable objects {:?} (not pinned through any untraced field of a remaining object) are still allocated: {}", not_reclaimed, shape.join(" ")));
     }
     let pinned = remain.iter().filter(|id| !reach.contains(id)).count() as u64;
     wd.stats.pinned_garbage_left.set(wd.stats.pinned_garbage_left.get() + pinned);
@@ -1613,7 +1617,9 @@ pub fn after_collect_quiet(wd: &World) {
     for d in dropped {
         h.u64(d as u64);
     }
-    wd.quiet_digests.borrow_mut().push(h.finish());
+    if !wd.in_callback() {
+        wd.quiet_digests.borrow_mut().push(h.finish());
+    }
     drop(m);
     check_bytes(wd, "after collect until quiet");
 }
